@@ -4,7 +4,7 @@ import copy
 
 from ..core import AnalysisError, dotted, call_name, src, walk_local, const_value
 from ..flow import edge_facts
-from ..rules import flow_of, calls_in, bind_args, canon, facts_at, cmp_norm, alts_deep, region, specialise, _subst
+from ..rules import flow_of, calls_in, bind_args, canon, facts_at, cmp_norm, alts_deep, region, specialise, _subst, state_writes
 
 EXPLANATION = ("DataClient: every requests.* call of get_sessions / count_sessions can only be reached on the accepted edge of the "
                "site-membership test whose other edge raises ValueError (validate before request), and both functions accept the same "
@@ -356,6 +356,61 @@ def rule_params(ck):
 # R4 formats
 # ----------------------------------------------------------------------------
 
+def _reaching_names(fl, e):
+    """names whose value can flow into expression e: through local definitions and through elements appended / inserted into local lists"""
+    from ..rules import mutating_calls
+    seen, todo = set(), [y.id for y in ast.walk(e) if isinstance(y, ast.Name)]
+    while todo:
+        nm = todo.pop()
+        if nm in seen:
+            continue
+        seen.add(nm)
+        for n in fl.cfg.nodes:
+            how = fl._defs.get(n, {}).get(nm)
+            if how and how[0] in ("assign", "unpack", "aug", "iter"):
+                v = how[1] if how[0] != "aug" else how[2]
+                todo += [y.id for y in ast.walk(v) if isinstance(y, ast.Name)]
+            for x in fl.cfg.node_exprs(n):
+                for p_, m_, c_ in mutating_calls(x):
+                    if p_ == nm and m_ in ("append", "extend", "insert", "add", "update", "__setitem__"):
+                        todo += [y.id for a in list(c_.args) + [k.value for k in c_.keywords] for y in ast.walk(a) if isinstance(y, ast.Name)]
+    return seen
+
+
+def rule_verbatim_and_local(ck):
+    """(R3v) caller-supplied texts (site, filter, projection, sort) reach the URL verbatim: they may be *arguments* of a format call or
+    operands of a concatenation / join, never (part of) the template a later .format() / % interprets - a filter containing braces
+    would be rewritten or raise.  (R2s) the paging state of the generator is local to the call: get_sessions writes no attribute of
+    the client (two generators of one client consumed alternately would otherwise follow each other's pages)."""
+    repo = ck.repo
+    f = repo.fn("DataClient.get_sessions")
+    fl = flow_of(f)
+    user = set(f.params[1:5]) & {"site", "cond", "project", "sort"} or set(f.params[1:5])
+    n_urls = 0
+    for n, c in calls_in(fl):
+        if call_name(c) not in ("get", "head") or not dotted(c.func) or not dotted(c.func).startswith("requests.") or not c.args:
+            continue
+        n_urls += 1
+        u = _gexpand(fl, c.args[0], n)
+        for x in list(ast.walk(c.args[0])) + list(ast.walk(u)):
+            tmpl = None
+            if isinstance(x, ast.Call) and isinstance(x.func, ast.Attribute) and x.func.attr in ("format", "format_map"):
+                tmpl = x.func.value
+            elif isinstance(x, ast.BinOp) and isinstance(x.op, ast.Mod):
+                tmpl = x.left
+            if tmpl is None:
+                continue
+            leak = sorted(_reaching_names(fl, tmpl) & user)
+            ck.require(not leak, "C20.R3", f, x, ok="templates are literals; caller texts are only substituted in",
+                       bad=f"the caller-supplied {leak} is part of the template of `{src(x, 60)}`: braces / percent signs in a filter or projection are interpreted "
+                           f"instead of being sent as given", sink="params:template")
+    ck.floor("C20.R3", n_urls, 1, "requests issued by get_sessions")
+    writes = [(n, p, t) for n, k, p, t in state_writes(fl) if p.startswith("self.")]
+    ck.require(not writes, "C20.R2", f, writes[0][2] if writes else "paging state", ok="the current page and the next link are locals of the generator",
+               bad=f"get_sessions keeps paging state in `{writes[0][1] if writes else ''}` on the client object: generators obtained from the same client interfere "
+                   f"(sessions skipped or repeated)", sink="pagination:shared-state")
+
+
 def rule_formats(ck):
     repo = ck.repo
     hd = repo.fn("http_date")
@@ -477,5 +532,6 @@ def run(ck):
     ck.attempt(rule_validate)
     ck.attempt(rule_pagination)
     ck.attempt(rule_params)
+    ck.attempt(rule_verbatim_and_local)
     ck.attempt(rule_formats)
     ck.attempt(rule_parse_dates)
